@@ -81,6 +81,15 @@ def coq_expr(pid, s, r):
         X = f"still_acquires ({sc_}) (pre_holds ({sc_})) (sc_hist ({sc_})) {ob_}"
         return (f"(let v := check_C10 ({sc_}) {ob_} in mkv (v_strict v) (v_proj v) (v_mon v && {X}) (v_monk v && {X}), "
                 f"wf_histb ({sc_}))")
+    if pid == "C17":
+        sc_, ob_ = s.coq(*r['adr']), common.obs_list(r)
+        X = f"nonacq_no_bad_release (sc_hist ({sc_})) {ob_}"
+        return (f"(let v := check_C17 ({sc_}) {ob_} in mkv (v_strict v) (v_proj v) (v_mon v && {X}) (v_monk v && {X}), "
+                f"wf_histb ({sc_}))")
+    if pid == "C04":
+        sc_, ob_ = s.coq(*r['adr']), common.obs_list(r)
+        return (f"(let v := check_C04 ({sc_}) {ob_} in let x := no_bad_release {ob_} in "
+                f"mkv (v_strict v) (v_proj v) (v_mon v && x) (v_monk v && x), wf_histb ({sc_}) && wf4b ({sc_}))")
     if pid in WHOLE_HISTORY:
         # also evaluate the decidable hypotheses of the whole-history theorem (Pf_Hist.v) on this scenario
         hyp = f"wf_histb ({s.coq(*r['adr'])})" + (f" && wf4b ({s.coq(*r['adr'])})" if pid == "C04" else "")
